@@ -956,7 +956,7 @@ func TestVerifC07(t *testing.T) {
 	}
 	n, length := 300, 40
 	if vu.Thorough() {
-		n, length = 3000, 50
+		n, length = 4000, 60
 	}
 	n = vu.EnvInt("VERIF_C07_N", n)
 	rng := vu.Rand(7)
